@@ -70,6 +70,9 @@ pub struct Model {
     pub index: BTreeSet<(u64, Dur)>,
     pub stats: Stats,
     pub tick_pending: bool,
+    /// ids of entries that were already expired when a full rotation of sweeps began and are still
+    /// held after it: the sweeper will never come for them ("expired" for good, not "not yet swept")
+    pub passed_over: BTreeSet<u64>,
     /// upsert / delete issued with Wait::Later whose queued part has not been awaited yet
     pub pending: Vec<Op>,
     /// last known id -> key (for evicted ids reported by events)
@@ -105,6 +108,7 @@ impl Model {
             index: BTreeSet::new(),
             stats: Stats::default(),
             tick_pending: false,
+            passed_over: BTreeSet::new(),
             pending: vec![],
             evictions_seen: 0,
             sweeps_seen: 0,
@@ -366,11 +370,13 @@ impl Model {
                     });
                 }
             } else if got == St::RejExists {
+                let passed_over = state == KState::ExpiredUnswept && self.keys.get(&key).map(|e| self.passed_over.contains(&e.id)).unwrap_or(false);
+                let name = if passed_over { "expired-and-passed-over-by-a-full-rotation" } else { state.name() };
                 out.push(Mis {
                     aspect: "status",
                     class: "absent-rejected-as-existing".into(),
-                    ctx: format!("state={},op={}", state.name(), what),
-                    msg: format!("{} of k{} which reads as absent ({}) was rejected with KeyAlreadyExists", what, key, state.name()),
+                    ctx: format!("state={},op={}", name, what),
+                    msg: format!("{} of k{} which reads as absent ({}) was rejected with KeyAlreadyExists", what, key, name),
                 });
             }
             return;
@@ -1021,7 +1027,8 @@ impl SeqDriver {
                     let prefer = f.prefer.clone();
                     let key = self.pick_key(&prefer);
                     let state = self.model.state(key);
-                    if f.avoid_put_on_unreadable_present && matches!(state, KState::ExpiredUnswept | KState::SoftDeleted) {
+                    let passed_over = self.model.keys.get(&key).map(|e| self.model.passed_over.contains(&e.id)).unwrap_or(false);
+                    if f.avoid_put_on_unreadable_present && matches!(state, KState::ExpiredUnswept | KState::SoftDeleted) && !passed_over {
                         continue;
                     }
                     let ttl = if self.rng.chance(f.ttl_pct, 100) { Some(self.gen_ttl()) } else { None };
@@ -1322,6 +1329,15 @@ impl Online for SeqDriver {
             self.model.compare(&o, &mut mis);
             if matches!(op, Op::AwaitIdle(RoleName::Sweeper) | Op::Rotate) {
                 self.model.sweep_semantics(&pre, &o, matches!(op, Op::Rotate), &mut mis);
+            }
+            if matches!(op, Op::Rotate) {
+                for (k, id, expiry, soft) in &o.store {
+                    if let Some(x) = expiry {
+                        if pre.now >= *x && !*soft && pre.keys.get(k).map(|e| e.id == *id).unwrap_or(false) {
+                            self.model.passed_over.insert(*id);
+                        }
+                    }
+                }
             }
             self.model.resync(&o);
         }
